@@ -28,8 +28,14 @@ def execute(rules, skeleton, H, names, params):
     a, x, b = params["A"], params["X"], params["B"]
     sk1 = tuple(a) + tuple(x) + tuple(b)
     sk2 = tuple(a) + ("nop",) * len(x) + tuple(b)
-    _, t1 = hist.run_history(rules, sk1, H, names, attractors=True)
-    _, t2 = hist.run_history(rules, sk2, H, names, attractors=True)
+    cfg1 = cfg2 = None
+    if params.get("cfg"):
+        # a non-default configuration must survive serialisation as well
+        symbolic = isinstance(H, hist.SymH)
+        cfg1 = hist.read_config(H, symbolic)
+        cfg2 = hist.read_config(H, symbolic)
+    _, t1 = hist.run_history(rules, sk1, H, names, attractors=True, config=cfg1)
+    _, t2 = hist.run_history(rules, sk2, H, names, attractors=True, config=cfg2)
     return {"t1": t1, "t2": t2, "cut": len(a)}
 
 
@@ -55,6 +61,12 @@ def info(out):
     return {"ops": [(e["kind"], e["op"], e["rec"]["ret"] if not isinstance(e["rec"]["ret"], (list, dict)) else "..", e["rec"]["exc"]) for e in out["t1"]]}
 
 
+def extra_vars(task, net):
+    if task["params"].get("cfg"):
+        return hist.declare_config()
+    return [], []
+
+
 def run_task(task):
     import checks.C16 as me
     return histcheck.run_task(task, me)
@@ -76,6 +88,13 @@ def tasks(tier, seed, selftest=False):
         S.append(dict(family="U2", skeleton=sk, timebox=6 if q else 600, params={"A": list(a), "X": list(x), "B": list(b)}))
         if not q:
             S.append(dict(family="D3", skeleton=sk, timebox=120, params={"A": list(a), "X": list(x), "B": list(b)}))
+    if not selftest:
+        # symbolic non-default configuration (limits, thresholds) on both diagrams
+        for (a, x, b) in [((), ("pickle",), ("fullbfs",)), ((), ("pickle",), ("everyseeds",)), (("succ",), ("pickle",), ("everyseeds",)),
+                          (("succ",), ("reclaim", "pickle"), ("fullbfs", "everyseeds")), ((), ("pickle",), ("aseeds",)), (("bfs",), ("pickle",), ("minp", "seeds"))]:
+            sk = tuple(a) + tuple(x) + tuple(b)
+            S.append(dict(family="U2", skeleton=sk, timebox=15 if q else 600, tag="cfg", params={"A": list(a), "X": list(x), "B": list(b), "cfg": True}))
+            S.append(dict(family="D3", skeleton=sk, timebox=10 if q else 600, tag="cfg", params={"A": list(a), "X": list(x), "B": list(b), "cfg": True}))
     if q:
         for (a, x, b) in combos[::7]:
             sk = tuple(a) + tuple(x) + tuple(b)
@@ -88,6 +107,7 @@ def main(tier, seed, t0, selftest=False):
     return common.finish(PROP, tier, seed, "model_checking", results, t0, selftest=selftest, functions=FUNCTIONS,
                          bounds={"history": "prefix A in " + str(PREFIXES) + "; X in pickle / reclaim / reclaim+pickle; suffix B in " + str(SUFFIXES),
                                  "families": "U2 (all combinations, time-boxed), D3 (sample in quick, all in thorough)",
+                                 "config": "default, and (tag cfg) the five numeric configuration fields symbolic in {default} u 0..5 on both diagrams",
                                  "compared": "full dumps incl. ids and depths, seeds, has-sets flag, return values; candidate lists are not compared (reclaim may replace them by the seeds, as documented)"},
                          assumptions=["AEON to_aeon/from_aeon round trip preserves functions and variable order (the text is re-attached to its denotation; truth tables are the representative's)",
                                       "contract stubs of DESIGN.md §8 validated on every representative"])
